@@ -476,7 +476,7 @@ def check(run, replay):
         if not o["ok"]:
             if o["obligation"] == "impl-raises":
                 hist["impl_errors"] += 1
-            if reported < 3 and replay is None and not c.get("light") and o["obligation"] != "impl-raises":
+            if reported < 1 and replay is None and not c.get("light") and o["obligation"] != "impl-raises":
                 small = shrink(c)
                 if small != c:
                     o2 = evaluate([small], tag="C06s")[0]
